@@ -106,6 +106,38 @@ func facts(f *hc.Facts) {
 	}
 	boolFact(f, "allocStepIsPartSize", step == "r.offset += int64(r.partSize)", false, "nextPlain: "+step)
 	f.Const("defaultPartSize", "telegram/downloader", "defaultPartSize")
+	// reader.next: the retry branch is `retryAttempt++; report…; continue` — no limit, no return
+	boolFact2 := func(name, fn string) {
+		shape, found := "", false
+		if fd := f.FuncDecl("telegram/downloader", fn); fd != nil {
+			ast.Inspect(fd.Body, func(n ast.Node) bool {
+				is, ok := n.(*ast.IfStmt)
+				if !ok || f.Src(is.Cond) != "flood || isRetryableTimeout(ctx, err)" {
+					return true
+				}
+				found = true
+				var parts []string
+				for _, st := range is.Body.List {
+					switch s := st.(type) {
+					case *ast.IncDecStmt:
+						parts = append(parts, f.Src(s))
+					case *ast.ExprStmt:
+						parts = append(parts, "call")
+					case *ast.BranchStmt:
+						parts = append(parts, s.Tok.String())
+					default:
+						parts = append(parts, fmt.Sprintf("%T", st))
+					}
+				}
+				shape = strings.Join(parts, ";")
+				return false
+			})
+		}
+		boolFact(f, name, found && shape == "retryAttempt++;call;continue", found && shape != "retryAttempt++;call;continue",
+			fn+": retry branch = "+shape)
+	}
+	boolFact2("readerRetryUnbounded", "reader.next")
+	boolFact2("verifierRetryUnbounded", "verifier.next")
 }
 
 // ---------------------------------------------------------------- remote file and mock client
@@ -200,10 +232,13 @@ func (m *mock) UploadGetFile(ctx context.Context, r *tg.UploadGetFileRequest) (t
 				m.k++
 			}
 		}
+	}
+	sc := m.script[idx]
+	// long fault runs: only the first and the serving attempt go through the scheduler
+	if m.gated && (a == 0 || a >= len(sc) || len(sc) <= 3) {
 		p = &pend{idx, make(chan struct{})}
 		m.pending = append(m.pending, p)
 	}
-	sc := m.script[idx]
 	m.mu.Unlock()
 	if p != nil {
 		select {
@@ -370,9 +405,29 @@ func runCase(d *dcase) (res dresult) {
 	return res
 }
 
+// longRun puts 1..64 consecutive retryable faults on ONE block (first / middle / last / the empty block
+// after the end): retry transparency must not depend on how long the run is.  Timeouts are retried
+// without delay; a FLOOD_WAIT costs a real second, so at most one per script and only within the budget.
+func longRun(r *hc.RNG, nblocks int, floodBudget *int) map[int]string {
+	idx := hc.Pick(r, 0, nblocks/2, nblocks-1, nblocks)
+	if idx < 0 {
+		idx = 0
+	}
+	n := hc.Pick(r, 1, 2, 5, 19, 20, 21, 22, 32, 40, 63, 64, r.Range(1, 64))
+	b := bytes.Repeat([]byte{'t'}, n)
+	if *floodBudget > 0 && r.Chance(15) {
+		*floodBudget--
+		b[r.Intn(n)] = 'f'
+	}
+	return map[int]string{idx: string(b)}
+}
+
 func genScript(r *hc.RNG, nblocks int, floodBudget *int) map[int]string {
 	sc := map[int]string{}
-	if r.Chance(50) {
+	if r.Chance(25) {
+		return longRun(r, nblocks, floodBudget)
+	}
+	if r.Chance(40) {
 		return sc
 	}
 	for i := r.Range(1, 3); i > 0; i-- {
@@ -536,6 +591,14 @@ func run(c *hc.Ctx) error {
 		}
 		if len(d.script) > 0 {
 			c.Count("with-retries")
+			for _, sc := range d.script {
+				switch n := len(sc); {
+				case n >= 20:
+					c.Count("retry-run>=20")
+				case n >= 5:
+					c.Count("retry-run=5..19")
+				}
+			}
 		}
 
 		// ---- monitor
@@ -628,7 +691,7 @@ func run(c *hc.Ctx) error {
 		}
 		lines, impls = append(lines, line), append(impls, impl)
 	}
-	c.Res.Rule = "files of 0, 1, k·ps−1, k·ps, k·ps+1 and random sizes; part sizes 1..1024 with byte-level comparison (files ≤ 4 KiB) and 4 KiB..1 MiB with length-level comparison (files ≤ 6 MiB); Stream and Parallel with 1..8 threads under a PRNG-driven gate that releases one blocked request at a time; scripted retryable timeouts / FLOOD_WAIT / hard errors per block; non-trivial = more than one block; distinct = distinct case parameters"
+	c.Res.Rule = "files of 0, 1, k·ps−1, k·ps, k·ps+1 and random sizes; part sizes 1..1024 with byte-level comparison (files ≤ 4 KiB) and 4 KiB..1 MiB with length-level comparison (files ≤ 6 MiB); Stream and Parallel with 1..8 threads under a PRNG-driven gate that releases one blocked request at a time; scripted retryable timeouts / FLOOD_WAIT / hard errors per block, incl. runs of 1..64 consecutive retryable faults on the first / a middle / the last block / the empty block after the end; non-trivial = more than one block; distinct = distinct case parameters"
 	c.PartialNote("goroutine scheduling below the granularity of whole chunk requests (the mock client is the only scheduling point; no hook inside parallel.go) and the Go memory model are not exhibited by the model; request arrival order at the mock may differ from allocation order, so `alloc` actions are reconstructed from arrivals")
 	c.PartialNote("FLOOD_WAIT is exercised with real 1 s sleeps (reader.next has no clock injection): only a few flood answers per run; retryable timeouts are retried immediately and are exercised freely")
 
